@@ -337,6 +337,21 @@ func TestVerif_C19(t *testing.T) {
 		}
 	}
 	rec(nil, false, false)
+	// long runs of failing reloads (beyond the depth of the enumeration): "any pattern of failing attempts that eventually
+	// stops" - after k consecutive failures the retry timer is still armed and the closing successful reload applies the latest
+	if verifrt.Shard() == 0 && !cut {
+		for k := 1; k <= 24; k++ {
+			for _, tail := range [][]string{nil, {"sL"}, {"sB"}, {"old"}} {
+				toks := []string{"sA"}
+				for i := 0; i < k; i++ {
+					toks = append(toks, "fire-fail")
+				}
+				toks = append(toks, tail...)
+				c19Exec(res, c19Case{Tokens: toks})
+				distinct++
+			}
+		}
+	}
 	res.Count("distinct_nontrivial", distinct)
 	res.Count("states", distinct)
 	res.Count("traces_validated_against_impl", distinct)
